@@ -5,6 +5,7 @@ import BigtreeProofs.Lemmas.QueryProps
 import BigtreeProofs.Lemmas.QueryGoTo
 import BigtreeProofs.Lemmas.QueryGoToPath
 import BigtreeProofs.Lemmas.QueryBinary
+import BigtreeProofs.Lemmas.QueryDiameter
 import BigtreeProofs.Lemmas.QueryExamples
 /-!
 # C12 — derived node queries agree with their definitions
@@ -182,5 +183,36 @@ theorem diameter_eq :
   ⟨diameter_eq_diamSpec, fun b t h => by rw [diameterB_eq b t h, diameter_eq_diamSpec]⟩
 
 example : diameter exWide = 5 ∧ diameter exTree = 4 ∧ diameterB exBin = 1 := by decide
+
+/-- (Tier 2) `diameter` = the number of edges on the longest path inside the subtree: no two
+    nodes of the subtree are further apart (`dist u v = |u| + |v| − 2·|common prefix|`, which is
+    the number of edges of the `go_to` path, `go_to_simple_path`), and some pair is exactly that
+    far apart.  Stated for a whole tree and for the subtree at any node `a` of `R`. -/
+theorem diameter_longest_path :
+    (∀ t : Tree, (∀ u ∈ locs t, ∀ v ∈ locs t, dist u v ≤ diameter t) ∧
+      (∃ u ∈ locs t, ∃ v ∈ locs t, dist u v = diameter t)) ∧
+    (∀ (R : Tree) (a : Addr) (t : Tree), sub R a = some t →
+      (∀ u ∈ subtreeLocs R a, ∀ v ∈ subtreeLocs R a, dist u v ≤ diameterAt R a) ∧
+      (∃ u ∈ subtreeLocs R a, ∃ v ∈ subtreeLocs R a, dist u v = diameterAt R a)) := by
+  have h1 : ∀ t : Tree, (∀ u ∈ locs t, ∀ v ∈ locs t, dist u v ≤ diameter t) ∧
+      (∃ u ∈ locs t, ∃ v ∈ locs t, dist u v = diameter t) := by
+    intro t
+    rw [diameter_eq_diamSpec]
+    exact ⟨dist_le_diamSpec t, exists_pair_diamSpec t⟩
+  refine ⟨h1, ?_⟩
+  intro R a t h
+  simp only [diameterAt, h, subtreeLocs_of_sub h]
+  constructor
+  · intro u hu v hv
+    rcases List.mem_map.1 hu with ⟨x, hx, rfl⟩
+    rcases List.mem_map.1 hv with ⟨y, hy, rfl⟩
+    rw [dist_append_left]
+    exact (h1 t).1 x hx y hy
+  · rcases (h1 t).2 with ⟨x, hx, y, hy, hd⟩
+    exact ⟨a ++ x, List.mem_map.2 ⟨x, hx, rfl⟩, a ++ y, List.mem_map.2 ⟨y, hy, rfl⟩,
+      by rw [dist_append_left, hd]⟩
+
+example : sub exTree [0] = some (.node 1 ['a'] [] [.node 2 ['c'] [] [], .node 3 ['d'] [] [.node 4 ['e'] [] []]])
+    ∧ diameterAt exTree [0] = 3 ∧ dist [0, 0] [0, 1, 0] = 3 := by decide
 
 end C12
